@@ -193,6 +193,7 @@ def run(ctx):
           "problem_kinds": {}, "not_restored": 0, "baseline_same": 0, "baseline_differs": 0}
     mcases, meta = [], []
     failing = []
+    violating_texts = set()
     distinct = set()
     samples = []
     for r in results:
@@ -303,6 +304,15 @@ def run(ctx):
                 st["baseline_differs"] += 1
                 what = "table construction: " + ", ".join(sorted(set(kinds)))
                 ctx.violation(what, rep, key="+".join(sorted(set(kinds))))
+                violating_texts.add(r["gtext"])
+    # ==== table_build_correspondence =====================================================
+    # The Gallina model of create_table itself (Model/First.v, Closure.v, Automaton.v,
+    # TableBuild.v) is run on generated grammars and compared with the impl's tables, item sets,
+    # follow sets, FIRST/FOLLOW, conflicts (harness/lib/tabcorr.py).  A disagreement is a
+    # violation of the correspondence unless the grammar already shows a property violation above.
+    from lib import tabcorr
+    tab_cov = tabcorr.run(ctx, skip_texts=violating_texts)
+    # ==== end of table_build_correspondence ==============================================
     return {
         "evaluations": st["tables"],
         "distinct_nontrivial": len(distinct),
@@ -312,7 +322,9 @@ def run(ctx):
         "samples": samples,
         "traces_validated_against_impl": st["validated_complete"],
         "distribution": st,
-        "crosscheck_vm_compute_cases": nx,
+        "table_build_correspondence": tab_cov,
+        "model_tables_compared_with_impl": tab_cov["compared"],
+        "crosscheck_vm_compute_cases": nx + tab_cov["crosscheck_vm_compute_cases"],
         "exhaustive": False,
     }
 
